@@ -100,10 +100,15 @@ CondTable(ifs, envs) == [idx \in 1 .. Len(envs) |-> Out(CondVal(ifs, 1, envs[idx
 RunEnvs == <<[a |-> None, y |-> I(2), T |-> Tup(<<None, B(FALSE), B(TRUE), I(0), I(1), I(2), Obj("R2")>>), U |-> Tup(<<I(0), I(1)>>)],
              [a |-> I(1), y |-> I(2), T |-> Tup(<<None, B(FALSE), B(TRUE), I(0), I(1), I(2), Obj("R2")>>), U |-> Tup(<<I(0), I(1)>>)]>>
 
+Max2(a, b) == IF a >= b THEN a ELSE b
+RECURSIVE MaxUsed(_, _, _)
+MaxUsed(es, names, k) == IF k > Len(es) THEN 0 ELSE Max2(UsedCount(es[k], names), MaxUsed(es, names, k + 1))
+
+(* element and filters are tabulated over the names they use (a prefix of `names`, as for plain expressions) *)
 GenRow(g, names, ET) ==
     [g |-> g,
-     elt |-> Table(g[2], ET[Len(names) + 1]),
-     conds |-> [ci \in 1 .. Len(g[3]) |-> CondTable(g[3][ci][3], ET[Len(names) + 1])],
+     elt |-> LET k == UsedCount(g[2], names) IN [k |-> k, tab |-> Table(g[2], ET[k + 1])],
+     conds |-> [ci \in 1 .. Len(g[3]) |-> LET k == MaxUsed(g[3][ci][3], names, 1) IN [k |-> k, tab |-> CondTable(g[3][ci][3], ET[k + 1])]],
      runs |-> [ri \in 1 .. Len(RunEnvs) |->
                  LET r == EvalGen(g, RunEnvs[ri]) IN [out |-> [i \in 1 .. Len(r.out) |-> Out(r.out[i])], stop |-> Out(r.stop)]]]
 
